@@ -4,6 +4,7 @@ import (
 	"fmt"
 	"go/ast"
 	"go/constant"
+	"go/token"
 	"go/types"
 	"strings"
 
@@ -268,11 +269,19 @@ func checkPoll(c *core.Ctx) {
 		c.Unknown("POLL", key, fn.Decl.Pos(), "no endless polling loop found")
 		return
 	}
-	for _, first := range []bool{true, false} {
-		first := first
+	for _, sc := range []struct{ first, prevFlag bool }{{true, false}, {false, false}, {false, true}} {
+		first, prevFlag := sc.first, sc.prevFlag
 		in := newInterp(p, fn)
 		in.Hooks.Loop = func(st *absint.State, loop ast.Stmt) *absint.LoopSpec {
 			return &absint.LoopSpec{Cases: []string{"row"}, MaxIter: 1, RefStep: func(ref, cs string) string { return ref }}
+		}
+		// the flag the remembered record was emitted with in the previous round
+		in.Hooks.Cond = func(st *absint.State, atom string) (bool, bool) {
+			if strings.HasPrefix(atom, "lastRetractions[") && strings.HasSuffix(atom, "]") {
+				st.Emit("FLAGREAD "+strings.TrimSuffix(strings.TrimPrefix(atom, "lastRetractions["), "]"), token.NoPos)
+				return prevFlag, true
+			}
+			return false, false
 		}
 		in.Hooks.Call = chainCall(recordCtorHook, func(st *absint.State, call *ast.CallExpr, callee string, recv absint.Val, args []absint.Val) (absint.Val, bool) {
 			switch callee {
@@ -294,6 +303,9 @@ func checkPoll(c *core.Ctx) {
 				if v := st.Lookup("lastValues"); v != nil {
 					lv = v.Canon()
 				}
+				if v := st.Lookup("lastRetractions"); v == nil || v.Canon() != "nil" {
+					lv += " (flags not reset)"
+				}
 				st.Emit("SOURCE lastValues="+lv, call.Pos())
 				return absint.Nil{}, true
 			}
@@ -301,6 +313,9 @@ func checkPoll(c *core.Ctx) {
 		}, ctorHook(ids), errorfHook)
 		outs, err := in.Run(&ast.FuncType{Params: &ast.FieldList{}}, nil, round.Body, nil, "")
 		ckey := fmt.Sprintf("%s/round (first=%v)", key, first)
+		if prevFlag {
+			ckey += " after a round in which the source retracted"
+		}
 		if err != nil {
 			c.Unknown("POLL", ckey, round.Pos(), err.Error())
 			continue
@@ -316,9 +331,24 @@ func checkPoll(c *core.Ctx) {
 				switch {
 				case e.Name == "PRODUCE":
 					rec := e.Args[1]
+					// every record of the previous round is undone: its values with the opposite flag
 					rt := o.Field(rec, "Retraction")
-					if !absint.IsTrue(rt) {
-						bad = "before the source runs only retractions of the previous snapshot may be emitted"
+					undoIdx := ""
+					for _, fe := range o.Events {
+						if strings.HasPrefix(fe.Name, "FLAGREAD ") {
+							undoIdx = strings.TrimPrefix(fe.Name, "FLAGREAD ")
+						}
+					}
+					want := absint.IsTrue
+					if prevFlag {
+						want = absint.IsFalse
+					}
+					if undoIdx == "" {
+						bad = "before the source runs, each record of the previous round must be undone with the opposite of the flag it was emitted with; the undo does not look at a remembered flag (it carries " + o.Show(rt) + ") — a constant flag turns a retraction made by the source itself into a second addition"
+					} else if !want(rt) {
+						bad = fmt.Sprintf("before the source runs, each record of the previous round must be undone with the opposite of the flag it was emitted with: for a record emitted with retraction=%v the undo carries %s — a constant flag turns a retraction made by the source itself into a second addition", prevFlag, o.Show(rt))
+					} else if v := o.Field(rec, "Values"); v == nil || v.Canon() != "lastValues["+undoIdx+"]" {
+						bad = "the undo flag and the undone row must belong to the same remembered record"
 					}
 					if et := o.Field(rec, "EventTime"); et == nil || et.Canon() != "lastNow" {
 						bad = "the retraction must carry the previous round's time"
@@ -400,8 +430,21 @@ func checkPoll(c *core.Ctx) {
 				bad = "the row is not emitted"
 				continue
 			}
-			if rt := o.Field(rec, "Retraction"); !absint.IsFalse(rt) {
-				bad = "snapshot rows are additions"
+			if rt := o.Field(rec, "Retraction"); rt == nil || rt.Canon() != "record.Retraction" {
+				bad = "a row is emitted with the flag the source gave it (record.Retraction): the source's own retractions must stay retractions; the flag is " + o.Show(rt)
+			}
+			flagRemembered := false
+			for _, e := range o.Events {
+				if strings.HasPrefix(e.Name, "append") && strings.Contains(e.Name, "lastRetractions") {
+					for _, a := range e.Args {
+						if a.Canon() == "record.Retraction" {
+							flagRemembered = true
+						}
+					}
+				}
+			}
+			if v := o.Env["lastRetractions"]; !flagRemembered && (v == nil || !strings.Contains(v.Canon(), "record.Retraction")) {
+				bad = "the flag the row was emitted with is not remembered for the next round"
 			}
 			if et := o.Field(rec, "EventTime"); et == nil || et.Canon() != "now" {
 				bad = "snapshot rows carry this round's time as event time"
@@ -424,7 +467,7 @@ func checkPoll(c *core.Ctx) {
 				bad = "the source row's values must follow the time column (copy(values[1:], record.Values)); copies: " + strings.Join(copies, "; ")
 			}
 		}
-		c.Decide(bad == "" && len(outs) > 0, "POLL", key+"/row", rcs[0].Produce.Pos(), len(outs), "time column + source values, addition at `now`, remembered", bad)
+		c.Decide(bad == "" && len(outs) > 0, "POLL", key+"/row", rcs[0].Produce.Pos(), len(outs), "time column + source values, the source's flag at `now`, remembered with its flag", bad)
 	} else {
 		c.Unknown("POLL", key+"/row", fn.Decl.Pos(), "source.Run callback not found")
 	}
